@@ -25,6 +25,37 @@ def _escaper(model):
     return model.func('html_quote', 'html_quote')
 
 
+def _replace_chain(model, fi, ret):
+    """(char, entity) pairs, in order, of a sequence of .replace() calls
+    applied to the returned variable: either straight-line calls or a loop
+    over a constant table of pairs.  None if not of that shape."""
+    if not isinstance(ret.value, ast.Name):
+        return None
+    var = ret.value.id
+    pairs = []
+    for st in fi.node.body:
+        if isinstance(st, ast.For) and isinstance(st.target, ast.Tuple) and \
+                len(st.target.elts) == 2:
+            ok, table = model.fold(st.iter, fi)
+            a, b = [norm(x) for x in st.target.elts]
+            body_ok = len(st.body) == 1 and \
+                norm(st.body[0]) == f'{var} = {var}.replace({a}, {b})'
+            if ok and body_ok and all(isinstance(p, tuple) and len(p) == 2
+                                      for p in table):
+                pairs += [tuple(p) for p in table]
+            else:
+                return None
+        elif isinstance(st, ast.Assign) and norm(st.targets[0]) == var and \
+                isinstance(st.value, ast.Call) and \
+                isinstance(st.value.func, ast.Attribute) and \
+                st.value.func.attr == 'replace' and \
+                norm(st.value.func.value) == var and \
+                len(st.value.args) == 2 and all(
+                    isinstance(x, ast.Constant) for x in st.value.args):
+            pairs.append((st.value.args[0].value, st.value.args[1].value))
+    return pairs
+
+
 def rule_one_escaper(model):
     r = RuleResult('C03.R1', 'every html-quoting path uses one escaper that '
                    'is html.escape with quote=True')
@@ -33,6 +64,7 @@ def rule_one_escaper(model):
     rets = [n for n in own_nodes(esc.node) if isinstance(n, ast.Return)]
     if not rets:
         raise AnalysisError('html_quote: no return')
+    inlined = False
     for ret in rets:
         v = ret.value
         ok = False
@@ -44,6 +76,14 @@ def rule_one_escaper(model):
                 ok = em.quote_default is True
             elif isinstance(q, ast.Constant) and q.value:
                 ok = True
+        chain = None
+        if not ok:
+            chain = _replace_chain(model, esc, ret)
+            if chain is not None and chain and chain[0][0] == '&' and \
+                    sorted(chain) == sorted(em.pairs) and \
+                    len(chain) == len(em.pairs):
+                ok = True
+                inlined = True
         r.instance(esc.where, ret, 'escape(quote on)' if ok else 'WEAK')
         if not ok:
             r.finding(esc.where, ret, 'html_quote does not return '
@@ -54,12 +94,18 @@ def rule_one_escaper(model):
         if isinstance(n, ast.Call) and isinstance(n.func, ast.Attribute) and \
                 n.func.attr in ('replace', 'strip', 'lower', 'upper',
                                 'translate', 'lstrip', 'rstrip'):
+            if inlined and n.func.attr == 'replace':
+                continue
             r.finding(esc.where, n, 'html_quote alters the text besides '
                       'escaping', node=n, ctx=esc)
     # users
     rb = model.func('_DocumentTemplate', 'render_blocks_')
-    uses = [n for n in own_nodes(rb.node) if isinstance(n, ast.Call)
-            and esc.where in model.callee_names(n, rb)]
+    uses = []
+    for g in rb.module.funcs.values():
+        for n in own_nodes(g.node):
+            if isinstance(n, ast.Call) and \
+                    esc.where in model.callee_names(n, g):
+                uses.append(n)
     for n in uses:
         r.instance(rb.where, n, 'fast path escaper')
     if not uses:
@@ -127,47 +173,75 @@ def _regex_chars(model, fi, call):
     return None
 
 
+def _chars_in(model, fi, expr):
+    chars = set()
+    for p in ast.walk(expr):
+        if isinstance(p, ast.Compare) and len(p.ops) == 1 and \
+                isinstance(p.ops[0], ast.In) and \
+                isinstance(p.left, ast.Constant) and \
+                isinstance(p.left.value, str) and len(p.left.value) == 1:
+            chars.add(p.left.value)
+        elif isinstance(p, ast.Call) and isinstance(p.func, ast.Name) and \
+                p.func.id == 'any' and p.args and \
+                isinstance(p.args[0], ast.GeneratorExp):
+            g = p.args[0].generators[0]
+            ok, v = model.fold(g.iter, fi)
+            if ok and isinstance(v, (str, tuple, list)):
+                chars |= set(v)
+        elif isinstance(p, ast.Call):
+            rc = _regex_chars(model, fi, p)
+            if rc:
+                chars |= rc
+    return chars
+
+
 def fast_path_chars(model):
-    """Characters tested by the 'needs quoting' predicate: an If whose test
-    contains a chain of `'c' in t`, any(c in t for c in '...') or a
-    one-class regex search."""
-    rb = model.func('_DocumentTemplate', 'render_blocks_')
+    """Characters tested by the 'needs quoting' predicate: an If test in
+    render_blocks_ (chain of `'c' in t`, any(...) or a one-class regex), or
+    the return expression of a predicate helper of the same module that such
+    an If calls.  -> (function, node, chars, helper name or None)"""
+    mod = model.module('_DocumentTemplate')
     best = None
-    for n in own_nodes(rb.node):
-        if isinstance(n, ast.If):
-            chars = set()
-            for p in ast.walk(n.test):
-                if isinstance(p, ast.Compare) and len(p.ops) == 1 and \
-                        isinstance(p.ops[0], ast.In) and \
-                        isinstance(p.left, ast.Constant) and \
-                        isinstance(p.left.value, str) and \
-                        len(p.left.value) == 1:
-                    chars.add(p.left.value)
-                elif isinstance(p, ast.Call) and \
-                        isinstance(p.func, ast.Name) and \
-                        p.func.id == 'any' and p.args and \
-                        isinstance(p.args[0], ast.GeneratorExp):
-                    g = p.args[0].generators[0]
-                    ok, v = model.fold(g.iter, rb)
-                    if ok and isinstance(v, (str, tuple, list)):
-                        chars |= set(v)
-                elif isinstance(p, ast.Call):
-                    rc = _regex_chars(model, rb, p)
-                    if rc:
-                        chars |= rc
-            if len(chars) >= 2 and (best is None or len(chars) > len(best[1])):
-                best = (n, chars)
+    for fi in mod.funcs.values():
+        for n in own_nodes(fi.node):
+            expr = None
+            if isinstance(n, ast.If):
+                expr = n.test
+            elif isinstance(n, ast.Return) and n.value is not None and \
+                    fi.name != 'render_blocks_':
+                expr = n.value
+            if expr is None:
+                continue
+            chars = _chars_in(model, fi, expr)
+            if len(chars) >= 2 and (best is None or len(chars) > len(best[2])):
+                best = (fi, n, chars)
     if best is None:
-        raise AnalysisError('render_blocks_: fast-path character test not '
-                            'found')
-    return rb, best[0], best[1]
+        raise AnalysisError('fast-path character test not found')
+    fi, node, chars = best
+    helper = None
+    if isinstance(node, ast.Return):
+        helper = fi
+        # the If that calls the helper
+        caller = None
+        for g in mod.funcs.values():
+            for n in own_nodes(g.node):
+                if isinstance(n, ast.If) and any(
+                        isinstance(c, ast.Call) and
+                        isinstance(c.func, ast.Name) and
+                        c.func.id == fi.name for c in ast.walk(n.test)):
+                    caller = (g, n)
+        if caller is None:
+            raise AnalysisError('fast-path predicate helper is never '
+                                'tested')
+        return caller[0], caller[1], chars, helper
+    return fi, node, chars, None
 
 
 def rule_fast_path(model):
     r = RuleResult('C03.R2', 'the fast path skips quoting only for strings '
                    'free of every character the escaper rewrites')
     em = EscapeModel()
-    rb, node, chars = fast_path_chars(model)
+    rb, node, chars, helper = fast_path_chars(model)
     need = em.chars(True)
     r.instance(rb.where, node.test, f'tests {sorted(chars)}; escaper '
                f'rewrites {sorted(need)}')
@@ -199,11 +273,31 @@ def rule_fast_path(model):
              for c in ast.walk(s_)):
         # shape: if <problem characters present>: t = html_quote(t)
         neg = False
-        for c in ast.walk(node.test):
+        scope = node.test
+        stop = node
+        if helper is not None:
+            # polarity of the call in the test, and of the compares inside
+            # the helper's return expression
+            for c in ast.walk(node.test):
+                if isinstance(c, ast.Call) and \
+                        isinstance(c.func, ast.Name) and \
+                        c.func.id == helper.name:
+                    for a in ancestors(c):
+                        if a is node:
+                            break
+                        if isinstance(a, ast.UnaryOp) and \
+                                isinstance(a.op, ast.Not):
+                            neg = not neg
+            rets = [x for x in own_nodes(helper.node)
+                    if isinstance(x, ast.Return) and x.value is not None
+                    and _chars_in(model, helper, x.value)]
+            scope = rets[0].value
+            stop = rets[0]
+        for c in ast.walk(scope):
             if isinstance(c, ast.Compare) and isinstance(c.ops[0], ast.In) \
                     and isinstance(c.left, ast.Constant):
                 for a in ancestors(c):
-                    if a is node:
+                    if a is stop:
                         break
                     if isinstance(a, ast.UnaryOp) and isinstance(a.op,
                                                                  ast.Not):
@@ -332,17 +426,48 @@ def rule_identity(model):
     if var is None:
         raise AnalysisError('render_blocks_: value variable not found')
     n_assign = 0
-    for n in own_nodes(rb.node):
-        if isinstance(n, ast.Assign) and isinstance(n.targets[0], ast.Name) \
-                and n.targets[0].id == var:
+    todo = [(rb, var, ns)]
+    done = set()
+    while todo:
+        fn, v, nsname = todo.pop()
+        if (fn.where, v) in done:
+            continue
+        done.add((fn.where, v))
+        # the value handed to a helper of the same module
+        for c in own_nodes(fn.node):
+            if isinstance(c, ast.Call) and isinstance(c.func, ast.Name) and \
+                    any(norm(a) == v for a in c.args):
+                for t in model.resolve_callee(c.func, fn):
+                    if t[0] == 'func' and t[1].module is fn.module and \
+                            t[1] is not fn:
+                        hp = t[1].params()
+                        for i, a in enumerate(c.args):
+                            if norm(a) == v and i < len(hp):
+                                todo.append((t[1], hp[i], nsname))
+        for n in own_nodes(fn.node):
+            if not (isinstance(n, ast.Assign) and
+                    isinstance(n.targets[0], ast.Name) and
+                    n.targets[0].id == v):
+                continue
             if isinstance(n.value, ast.Subscript) or (
                     isinstance(n.value, ast.Call) and
                     isinstance(n.value.func, ast.Name) and
                     len(n.value.args) == 1 and
-                    norm(n.value.args[0]) == ns):
+                    norm(n.value.args[0]) == nsname):
                 continue          # the lookups themselves
-            if isinstance(n.value, ast.Subscript):
-                continue
+            # v = helper(v, ...): follow the value into the helper
+            if isinstance(n.value, ast.Call) and \
+                    isinstance(n.value.func, ast.Name):
+                followed = False
+                for t in model.resolve_callee(n.value.func, fn):
+                    if t[0] == 'func' and t[1].module is fn.module:
+                        hp = t[1].params()
+                        for i, a in enumerate(n.value.args):
+                            if norm(a) == v and i < len(hp):
+                                todo.append((t[1], hp[i], nsname))
+                                followed = True
+                if followed:
+                    continue
             n_assign += 1
             guards = []
             prev = n
@@ -352,17 +477,17 @@ def rule_identity(model):
                         guards.append(norm(a.test))
                     else:
                         guards.append('not (' + norm(a.test) + ')')
-                if isinstance(a, ast.For):
+                if isinstance(a, (ast.For, ast.FunctionDef)):
                     break
                 prev = a
-            ok = any(g.startswith('not isinstance(' + var) or
+            ok = any(g.startswith('not isinstance(' + v) or
                      'len(block) == 3' in g or 'untaintmethod' in g
                      for g in guards)
-            r.instance(rb.where, n, 'guarded: ' + ' & '.join(guards[:2]))
+            r.instance(fn.where, n, 'guarded: ' + ' & '.join(guards[:2]))
             if not ok:
-                r.finding(rb.where, n, f'the value `{var}` is rewritten on '
+                r.finding(fn.where, n, f'the value `{v}` is rewritten on '
                           'the plain insertion path (no quoting option, str '
-                          'value)', node=n, ctx=rb)
+                          'value)', node=n, ctx=fn)
     if n_assign < 2:
         raise AnalysisError('render_blocks_: value rewrites not found')
     return r
